@@ -178,8 +178,16 @@ int64_t cmi_resourceguard_wait_since(struct cmb_resourceguard *rgp,
     cmi_process_add_awaitable(pp, CMI_PROCESS_AWAITABLE_RESOURCE, rgp);
     cmb_logger_info(stdout, "Waits for %s", rgp->guarded_resource->name);
 
-    /* Yield to the dispatcher, collect the return signal value when resumed */
-    const int64_t sig = (int64_t)cmi_coroutine_yield(NULL);
+    /*
+     * Yield to the dispatcher, collect the return signal value when resumed. A
+     * success code while we are still in the queue is not a grant (a grant takes
+     * us off the queue first): it was meant for something this process did
+     * earlier, e.g., a resume for a yield. Go on waiting.
+     */
+    int64_t sig;
+    do {
+        sig = (int64_t)cmi_coroutine_yield(NULL);
+    } while ((sig == CMB_PROCESS_SUCCESS) && cmi_hashheap_is_enqueued(hp, key));
 
     /* Back here, possibly much later. Return the signal that resumed us. */
     if (sig != CMB_PROCESS_SUCCESS) {
